@@ -6,7 +6,8 @@ ROOT = os.path.dirname(os.path.dirname(os.path.abspath(__file__)))
 
 CHECKS = {
     'C16': ('every target over {A,K} (len<=8 quick / 9 thorough) x every query len 1..4 x ignore_mods, tagged-'
-            'modification variants, coverage over all lists of <=2 queries, compared state by state with a brute-force '
+            'modification variants (one or two modifications per site), an interval layer, coverage over all lists of <=2 '
+            'queries (strings, annotation objects, mixed), compared state by state with a brute-force '
             'offset scan', 'DESIGN.md section 4 / C16'),
 }
 CHECKS['C01'] = ('deviation-bounded product space (<=3 quick / <=4 thorough simultaneous notation features out of 12 slots, '
@@ -31,13 +32,14 @@ CHECKS['C10'] = ('complete enumeration of the bundled vocabularies (1522 Unimod,
                  'DESIGN.md section 4 / C10')
 CHECKS['C17'] = ('every pair of sorted m/z lists (with repetitions) of length 0..3 (quick) / 0..4 (thorough) over a dyadic '
                  '6-value grid x {th,ppm} x 5 tolerances each x {all,closest,largest} x every intensity assignment, '
-                 'against a quadratic brute-force matcher; fragment-match layer over every ordered selection of <=3 of 6 '
-                 'real fragments x <=3 of 6 peaks (order independence, intensity share, coverage)',
+                 '(incl. zero) against a quadratic brute-force matcher; fragment-match layer over every ordered selection of <=3 of 6 '
+                 'real fragments x <=3 of 6-8 peaks (duplicate m/z, zero intensity) (order independence, intensity share, coverage)',
                  'DESIGN.md section 4 / C17')
 CHECKS['C13'] = ('every residue string of length 1..3 (quick) / 1..4 (thorough) over {P,E,K} x pre-existing modifications x 16 '
                  'internal rule sets x 16-20 terminal rule pairs x max_mods 0..4 x 3 modes x 2 return types; static '
                  'builder against an own rule application, variable builder (mode skip) against the exhaustive subset '
-                 'enumeration (every form exactly once), weak clauses for the other modes and overlapping rule sets',
+                 'enumeration (every form exactly once), weak clauses for the other modes and overlapping rule sets; rule values '
+                 'as texts, Mod objects and mixtures',
                  'DESIGN.md section 4 / C13')
 CHECKS['C02'] = ('deviation-bounded product space (<=3 quick / <=4 thorough of 17 axes: 9 modification slots with '
                  'catalogue modifications of known mass and multipliers 1-3; charge argument, charge/adducts in the '
@@ -50,7 +52,8 @@ CHECKS['C03'] = ('differential exploration of the two library calculators: devia
                  'chem_mass(comp_mass)+delta and == chem_mass(comp(estimate_delta)); anchored to the independent reference '
                  'at low levels; every Unimod and every self-consistent PSI-MOD entry', 'DESIGN.md section 4 / C03')
 CHECKS['C05'] = ('every residue string of length 2..3 (quick) / 2..4 (thorough) over the 22 unambiguous-mass letters, plus '
-                 'modified peptides (<=2 numeric/formula modifications on residues/termini); every ion of all 6 terminal, 9 '
+                 'modified peptides (<=2 numeric/formula modifications on residues/termini, in place or as a global rule), through '
+                 'fragment() and the Fragmenter class; every ion of all 6 terminal, 9 '
                  'internal and the immonium series at charges 1..4, monoisotopic and average, against independently '
                  'computed backbone-cleavage chemistry from the frozen NIST table; b/y complementarity; the same through '
                  'mass(ion_type=...)', 'DESIGN.md section 4 / C05')
@@ -76,7 +79,8 @@ CHECKS['C20'] = ('deviation-bounded space (<=3 of 11 slots, several modification
                  'add_mods(strip_mods,get_mods), pop_mods, create_annotation(**dict()), copy()/dict() independence under deep '
                  'mutation in both directions, strip, construction through add_* calls in every order of the set slots, '
                  'and every single-field perturbation of the abstract peptide (value, multiplier, drop, duplicate, count '
-                 'change, move, interval bound/flag, charge, adducts, label, rule, residue) for ==/!= in both directions',
+                 'change, move, interval bound/flag, charge, adducts, label, rule, residue) for ==/!= in both directions; every '
+                 'ordered pair of 25 modification values x 7 slot kinds',
                  'DESIGN.md section 4 / C20')
 CHECKS['C19'] = ('deviation-bounded space (<=3 of 10 slots) of abstract peptides on 5 (quick) / 7 (thorough) residue strings incl. '
                  'repeated residues with different modifications; permutations / combinations / combinations_with_'
@@ -97,7 +101,8 @@ CHECKS['C14'] = ('every composition with <=7 (quick) / <=12 (thorough, 18563) at
                  'the exact multinomial expansion from the frozen isotope table at resolutions 5 and 6; identity clauses '
                  '(sorted, max/sum normalisation, lightest peak = monoisotopic mass incl. e/p/n, mean = average mass, '
                  'neutron view = mass view binned, merge adds) on a count grid up to 200 atoms incl. fractional counts, '
-                 'labelled elements, Se/Cl/Br/Fe x 7 option axes at deviation<=2', 'DESIGN.md section 4 / C14')
+                 'labelled elements, Se/Cl/Br/Fe x 7 option axes at deviation<=2; the averagine wrapper on 3 masses x the same '
+                 'option space', 'DESIGN.md section 4 / C14')
 CHECKS['C15'] = ('compositions of <=3 (quick) / <=4 (thorough) terms over 18 confusable keys (C/Ce/e, H/He, N/n/Na, p/P, D, T, 13C, '
                  '2H, 15N, ...) x 11 counts (negative, zero, fractional, 500) x 3 separators x Hill order: write/parse round '
                  'trip and mass against the frozen table; every element and two isotopes of the table; additivity over all '
